@@ -1,12 +1,12 @@
 #!/bin/sh
 # Build the Coq development (full .vo build), extract the model runner and compile it.
 set -eu
-cd /verif/coq
-[ -f Makefile ] || coq_makefile -f _CoqProject -o Makefile >/dev/null
+ROOT="$(cd "$(dirname "$0")" && pwd)"
+mkdir -p "$ROOT/.cache/ocaml"
+cd "$ROOT/coq"
 coq_makefile -f _CoqProject -o Makefile >/dev/null
-timeout 3000 make -j16 >/verif/.cache/coq_build.log 2>&1 || { tail -40 /verif/.cache/coq_build.log; exit 1; }
-mkdir -p /verif/.cache/ocaml
-cp /verif/coq/atsmodel_ext.ml /verif/coq/atsmodel_ext.mli /verif/ocaml/main.ml /verif/.cache/ocaml/
-cd /verif/.cache/ocaml
+timeout 3000 make -j16 >"$ROOT/.cache/coq_build.log" 2>&1 || { tail -40 "$ROOT/.cache/coq_build.log"; exit 1; }
+cp "$ROOT/coq/atsmodel_ext.ml" "$ROOT/coq/atsmodel_ext.mli" "$ROOT/ocaml/main.ml" "$ROOT/.cache/ocaml/"
+cd "$ROOT/.cache/ocaml"
 ocamlfind ocamlopt -w -a atsmodel_ext.mli atsmodel_ext.ml main.ml -o atsmodel
-echo "MODEL /verif/.cache/ocaml/atsmodel"
+echo "MODEL $ROOT/.cache/ocaml/atsmodel"
